@@ -3,9 +3,10 @@ CONSTANTS
   Regs = {"a"}
   Flags = {"f"}
   RB = 2
-  Offsets = {0, 1, 2}
+  Offsets = {0, 1}
   Sizes = {1, 2}
   Kinds = {1, 2}
+  PPs = {2}
   MaxPre = 1
   MaxB = 1
   Widen = {FALSE, TRUE}
